@@ -31,6 +31,8 @@ func (c *CertificateChain) AddCertificateChainEntry(entry *CertificateChainEntry
 type CertificateChainEntry struct {
 	RawCertificate []byte
 	Certificate    *x509.Certificate
+	//EndEntity is true for the first certificate of a verified chain (the presented certificate)
+	EndEntity bool
 }
 
 func NewCertificateChains(verifiedChains [][]*x509.Certificate, trustedSignerCerts []*x509.Certificate) *CertificateChains {
@@ -47,6 +49,9 @@ func NewCertificateChains(verifiedChains [][]*x509.Certificate, trustedSignerCer
 				Certificate:    verifiedChainEntry,
 			}
 			chain.AddCertificateChainEntry(&entry)
+		}
+		if len(chain.CertificateChainEntryList) > 0 {
+			chain.CertificateChainEntryList[0].EndEntity = true
 		}
 		chains.AddCertificateChain(*chain)
 	}
